@@ -195,6 +195,17 @@ def given_members_returned(ctx, jwk, extra):
         ctx.nontrivial(("identity", src))
         if not out.ok or out.value != src:
             ctx.violation("jwk-members-not-returned", f"as_dict() of an imported JWK returns {out.value if out.ok else out!r}, given {src!r}"[:500], case)
+        # exporting with additional parameters (as KeySet.as_dict(**params) does) must not change what the key exports afterwards
+        kk = k.value
+        call(kk.as_dict, custom="hi")
+        call(kk.as_dict, private=None, x5t="zzz")
+        if private:
+            call(kk.as_dict, private=True, extra_member=["a"])
+        call(kk.as_dict, private=False, alg_hint="q") if kk.key_type != "oct" else None
+        again = call(kk.as_dict)
+        ctx.count("export_idempotence")
+        if not again.ok or again.value != src:
+            ctx.violation("export-changes-key", f"after exports with extra parameters as_dict() returns {again.value if again.ok else again!r}, the imported JWK was {src!r}"[:500], case)
         if src is not None and out.ok and out.value is k.value.dict_value:
             pass
 
